@@ -381,6 +381,10 @@ func (v *Verifier) race(file string, all bool) (status, solver string, secs floa
 			decided = &rr
 			if !all {
 				cancel()
+			} else {
+				// thorough tier: the other back ends get a grace period to agree or
+				// disagree, not their whole time limit
+				time.AfterFunc(15*time.Second, cancel)
 			}
 		}
 	}
